@@ -723,9 +723,6 @@ func runAllResults(ctx *hx.Ctx, cases []caseSpec, workers int) []caseResult {
 		ctx.Kind(cases[i].kind)
 		ctx.Nontrivial(r.nontrivial)
 		for _, f := range r.fails {
-			if ctx.Prop != "C02" && f.class == "record-udp-start-failure" {
-				continue // C02's known finding; the C19 run judges ownership only
-			}
 			ctx.Failf(idx, f.class, r.caseLine, "%s", f.detail)
 		}
 	}
